@@ -102,7 +102,8 @@ func (t *Tree) parseOuterExpr(expr Expr) (Expr, error) {
 			var args = make([]Expr, 0)
 			var attr Expr
 			var err error
-			if num := t.peekNonSpace(); num.tokenType == tokenNumber {
+			first := t.peekNonSpace()
+			if num := first; num.tokenType == tokenNumber {
 				// A number after the dot is an index or key by itself: in
 				// "rows.0.name" the next dot starts another access, it does not
 				// make the number a decimal.
@@ -129,13 +130,15 @@ func (t *Tree) parseOuterExpr(expr Expr) (Expr, error) {
 				}
 				attr = NewStringExpr(exp.Name, exp.Pos)
 			default:
-				return nil, newUnexpectedTokenError(nt)
+				// The offending token is the operand, not the dot.
+				return nil, newUnexpectedTokenError(first)
 			}
 			return t.parseOuterExpr(NewGetAttrExpr(expr, attr, args, nt.Pos))
 
 		case "|": // Filter application
 
 			// The filter is a name, optionally followed by arguments.
+			first := t.peekNonSpace()
 			nx, err := t.parseInnerExpr()
 
 			if err != nil {
@@ -152,7 +155,7 @@ func (t *Tree) parseOuterExpr(expr Expr) (Expr, error) {
 				resultExpr = NewFilterExpr(n.Name, n.Args, n.Pos)
 
 			default:
-				return nil, newUnexpectedTokenError(nt)
+				return nil, newUnexpectedTokenError(first)
 			}
 
 			// Continue parsing potential outer expressions (including more filters)
